@@ -243,7 +243,7 @@ class Gen:
             return T.tunion(T.dedup([t, other])) if t[0] != "union" and other[0] != "union" and t != other else t
         if r < 0.80 and t[0] == "c" and t[1].startswith("/a"):
             return rng.choice([T.NAME, T.tc("/a"), T.tc("/a/b")])
-        if r < 0.86 and t[0] == "union":
+        if r < 0.86 and t[0] == "union" and t[1]:
             return rng.choice(t[1])
         if r < 0.92 and t[0] == "list":
             return T.tlist(self.near(t[1]))
@@ -672,13 +672,52 @@ def new_stats():
             "attributed": {}, "eval_outcomes": {}, "not_analysable_msgs": {}}
 
 
+EXH_TYPES = [T.ANY, T.NUMBER, T.STRING, T.NAME, T.tc("/a"), T.tc("/a/b"), T.tc("/b"), T.tsing(T.cname("/a/b")),
+             T.tlist(T.NUMBER), T.tlist(T.NAME), T.tlist(T.tc("/a")), T.tpair(T.NUMBER, T.STRING),
+             T.tunion([T.NUMBER, T.STRING]), T.tunion([T.tc("/a"), T.NUMBER]), T.tunion([T.tlist(T.NUMBER), T.STRING])]
+EXH_JOIN = [T.NUMBER, T.NAME, T.tc("/a"), T.tc("/a/b"), T.tc("/b"), T.tunion([T.tc("/a"), T.NUMBER]),
+            T.tunion([T.NUMBER, T.STRING]), T.tlist(T.NUMBER), T.ANY]
+EXH_CONSTS = [T.cnum(1), T.cstr("a"), T.cname("/a/x"), T.cname("/a/b"), T.cname("/a/b/c"), T.cname("/b/c"), T.cname("/x"),
+              T.clist([]), T.clist([T.cnum(1)]), T.clist([T.cname("/a/x")]), T.clist([T.cname("/x")]),
+              T.cpair(T.cnum(1), T.cstr("a"))]
+
+
+def exhaustive_programs():
+    """(a) h(X) :- e(X) for every ordered pair of EXH_TYPES; (b) h(X) :- e(X), g(X) for every
+    triple of EXH_JOIN; (c) the two-row variant of (a): e has rows [S] and [S'] for every
+    S' of a short list. Every constant of EXH_CONSTS is offered as a fact of e (and g)."""
+    V0 = ["var", 0]
+    progs = []
+
+    def mk(erows, grows, t, body):
+        decls = {"p0": {"arity": 1, "rows": erows}}
+        pre = [["p0", [c]] for c in EXH_CONSTS]
+        if grows is not None:
+            decls["p1"] = {"arity": 1, "rows": grows}
+            pre += [["p1", [c]] for c in EXH_CONSTS]
+        decls["p2"] = {"arity": 1, "rows": [[t]]}
+        return {"decls": decls, "rules": [{"head": ["p2", [V0]], "body": body}], "init": [], "pre": pre, "exh": True}
+
+    for s in EXH_TYPES:
+        for t in EXH_TYPES:
+            progs.append(mk([[s]], None, t, [["atom", "p0", [V0]]]))
+            for s2 in (T.STRING, T.tlist(T.STRING), T.tc("/b")):
+                if s2 != s:
+                    progs.append(mk([[s], [s2]], None, t, [["atom", "p0", [V0]]]))
+    for s in EXH_JOIN:
+        for g in EXH_JOIN:
+            for t in EXH_JOIN:
+                progs.append(mk([[s]], [[g]], t, [["atom", "p0", [V0]], ["atom", "p1", [V0]]]))
+    return progs
+
+
 def run(ck):
     ck.obligations()
     ck.build_harness()
     rng = ck.rng
     progs = load_corpus()
     ncorpus = len(progs)
-    n_frag, n_wide = ck.n(330, 12000), ck.n(200, 8000)
+    n_frag, n_wide = ck.n(330, 6000), ck.n(200, 4000)
     for k in range(n_frag + n_wide):
         wide = k >= n_frag
         prog = gen_program(rng, wide)
@@ -690,7 +729,15 @@ def run(ck):
             prog["stream"] = "wide" if wide else "fragment"
         prog["to_model"] = (not wide) or (k % 4 == 0)
         progs.append(prog)
-    ck.log("%d programs (%d corpus)" % (len(progs), ncorpus))
+    exhaustive = not ck.quick
+    nexh = 0
+    if exhaustive:
+        for prog in exhaustive_programs():
+            prog["stream"] = "n92-shaped" if n92_shaped(prog) else "exhaustive"
+            prog["to_model"] = True
+            progs.append(prog)
+            nexh += 1
+    ck.log("%d programs (%d corpus, %d exhaustive block)" % (len(progs), ncorpus, nexh))
     outs = ck.run_go("c11", [go_case(p) for p in progs], timeout=3000)
     ck.log("go done")
     stats = new_stats()
@@ -714,7 +761,10 @@ def run(ck):
         "evaluation_outcomes_other_than_ok": stats["eval_outcomes"],
         "not_analysable (generator artefacts, by message prefix)": dict(sorted(stats["not_analysable_msgs"].items(),
                                                                                key=lambda kv: -kv[1])[:8]),
-        "exhaustive": False, "exhaustive_scope": "",
+        "exhaustive": exhaustive,
+        "exhaustive_scope": ("%d programs: h(X) :- e(X) for every ordered pair of %d types (one- and two-row declarations of e), "
+                             "h(X) :- e(X), g(X) for every triple of %d types; each with all %d constants of a fixed universe "
+                             "offered as facts" % (nexh, len(EXH_TYPES), len(EXH_JOIN), len(EXH_CONSTS))) if exhaustive else "",
         "samples": stats["samples"],
     }
     return ck.finish(cov, assumptions=[
